@@ -58,6 +58,27 @@ def skipGap (cs : List Nat) : List Nat :=
   if _h : (skipStep cs).length < cs.length then skipGap (skipStep cs) else cs
 termination_by cs.length
 
+/-- `is_comment_start` (lexer.rs:453). -/
+def startsComment : List Nat → Bool
+  | c :: d :: _ => c == 0x2F && (d == 0x2F || d == 0x2A)
+  | _ => false
+
+/-- The loop of `is_next_character` (lexer.rs:965-980), used after the keywords `function`,
+`list`, `range`, `context` and after `date` / `time`: a comment is jumped over (`comment_end`,
+lexer.rs:984, stops where `consume_comment` stops), white space is stepped over, any other
+character decides.  At most `fuel` rounds (every round shortens the rest). -/
+def nextIsLoop (chars : List Nat) : Nat → List Nat → Bool
+  | 0, _ => false
+  | _ + 1, [] => false
+  | fuel + 1, c :: cs =>
+    if startsComment (c :: cs) then nextIsLoop chars fuel (skipComment (c :: cs))
+    else if chars.contains c then true
+    else if !isWhitespace c then false
+    else nextIsLoop chars fuel cs
+
+/-- `is_next_character(chars, offset)` on the text from `offset` on. -/
+def nextIs (chars : List Nat) (cs : List Nat) : Bool := nextIsLoop chars (cs.length + 1) cs
+
 /-! ## Layouts the property speaks of -/
 
 def allWs (g : List Nat) : Bool := g.all isWhitespace
@@ -115,5 +136,13 @@ def startsToken : List Nat → Bool
       !(c == 0x2F && (match cs with
         | d :: _ => d == 0x2F || d == 0x2A
         | [] => false))
+
+/-- The first character is one of `chars`. -/
+def headIn (chars : List Nat) : List Nat → Bool
+  | [] => false
+  | c :: _ => chars.contains c
+
+/-- The characters looked for are neither white space nor `/` (they are `(`, `<`, `:`). -/
+def plainChars (chars : List Nat) : Bool := chars.all (fun c => !isWhitespace c && c != 0x2F)
 
 end Dmn.GapLayout
